@@ -10,6 +10,7 @@ from pyvc import prims as U
 from pyvc import logic as L
 from pyvc.logic import Rope, as_rope, is_sym, simplify_native, INT
 from pyvc.engine import SUMMARIES, SStr, OStr, PStr, PyRaise, Undecided, mk_str
+from pyvc import engine as E
 
 _B58CHK = {}
 _B58 = {}
@@ -133,6 +134,9 @@ def s_prv_ckd(ctx, args, kw):
     selfref = args[0]
     index = simplify_native(args[1] if len(args) > 1 else kw["index"])
     o = ctx.deref(selfref)
+    import btc_hd_wallet.bip32 as _b32
+    if o.cls is not _b32.PrvKeyNode:
+        raise E.NoSummary()         # the contract PrvCkd is about PrvKeyNode receivers
     key = as_rope(simplify_native(ctx.getattr(selfref, "key")))
     if len(key) == 33 and ctx.branch(L.eq(key[0], 0)):
         key = key.slice(1, 33)
@@ -157,6 +161,9 @@ def s_pub_ckd(ctx, args, kw):
     selfref = args[0]
     index = simplify_native(args[1] if len(args) > 1 else kw["index"])
     o = ctx.deref(selfref)
+    import btc_hd_wallet.bip32 as _b32
+    if o.cls is not _b32.PubKeyNode:
+        raise E.NoSummary()         # the contract PubCkd is about PubKeyNode receivers (an inherited / super() call is inlined)
     if ctx.branch(index >= HARD):
         raise PyRaise(RuntimeError)
     if ctx.branch(index < 0):
